@@ -580,7 +580,7 @@ func runC18(c *report.Ctx) {
 	}
 
 	// ---- errors inside a transaction closure are not swallowed ---------------------------------------------
-	ruleNoSwallowedErrorInUpdate(c, 13)
+	ruleNoSwallowedErrorInUpdate(c, 8, nil)
 
 	// ---- (5) next index from the transaction ---------------------------------------------------------------------
 	ruleNextIndexFromTx(c)
